@@ -2,6 +2,7 @@ import MuduoVerif.Proofs.ConnLifeTrace
 import MuduoVerif.Proofs.ConnProgress
 import MuduoVerif.Proofs.OwnerStrand
 import MuduoVerif.Proofs.ConnSkelTie
+import MuduoVerif.Proofs.SysSkelTie
 /-!
 # C02 — each connection gets exactly one UP, then messages, then exactly one DOWN; clean destruction
 
@@ -576,5 +577,21 @@ theorem owner_example :
   refine ⟨?_, fun _ _ h => h, by decide, by decide, by decide, by decide, ?_⟩
   · exact goodSched_of_goodB _ _ (by decide)
   · decide
+
+/-! ## T1, the descriptor of a connection -/
+
+/-- T1, `~Socket` closes the descriptor exactly once.  `Conn.maybeDestroy` emits ONE `.sysClose` when the last reference to
+a connection goes away (`close_once`, `no_leak`, `destroy_clean` count that event); in /repo's current sources
+(`Generated/SysSkel.lean`, re-extracted on every run; `Proofs/SysSkelTie.lean`) `Socket::Socket` only stores the
+descriptor it is given, `Socket::~Socket` is one call of `sockets::close(sockfd_)` and nothing else, and
+`sockets::close` is one `::close` of that descriptor whose failure is only logged - no second `close`, no other system
+call on the way. -/
+theorem socket_dtor_closes_once :
+    Gen.SysSkel.socketCtor = [.act (.store "sockfd_" "sockfd")] ∧
+    Gen.SysSkel.socketFd = [.act (.ret "sockfd_")] ∧
+    Gen.SysSkel.socketDtor = [.act (.call "sockets::close" "sockfd_")] ∧
+    Gen.SysSkel.socketsClose =
+      [.act (.sys "close" "sockfd"), .ite "<result> < 0" [.act (.log .syserr)] []] :=
+  ⟨SysSkel.skeleton_socketCtor, SysSkel.skeleton_socketFd, SysSkel.skeleton_socketDtor, SysSkel.skeleton_socketsClose⟩
 
 end MuduoVerif.C02
